@@ -6,6 +6,9 @@ import Driver.C18
 import Driver.C08
 import Driver.C13
 import Driver.C12
+import Driver.C19
+import Driver.C17
+import Driver.C07
 /-!
 `sfdriver`: executable models behind a line protocol.  One request per line
 (`<model> <op> <args…>`), one reply line per request.  Core-only (no Mathlib below this file).
@@ -21,6 +24,9 @@ def dispatch (ws : List String) : String :=
   | "c08" :: rest => Driver.C08.handle rest
   | "c13" :: rest => Driver.C13.handle rest
   | "c12" :: rest => Driver.C12.handle rest
+  | "c19" :: rest => Driver.C19.handle rest
+  | "c17" :: rest => Driver.C17.handle rest
+  | "c07" :: rest => Driver.C07.handle rest
   | _ => "bad-op"
 
 partial def loop (hin : IO.FS.Stream) (hout : IO.FS.Stream) : IO Unit := do
